@@ -290,12 +290,17 @@ Proof. split; [exact C40_StreamCheck.ubc_double_close|exact C40_StreamCheck.ubc_
 Print Assumptions C40_stream_unlock_before_check_refuted.
 
 (* neighbours: RemoveReader that unlocks before its deletes, AddReader under the read lock, WriteUnit without the
-   read lock: each reaches an access to a guarded field without the mutex *)
+   read lock, and Close() reading the RTSP streams without the mutex - the code before fix b0c271a, a data race shown
+   by `go test -race` on RTSPStream() next to Close(): each reaches an access to a guarded field without the mutex *)
 Theorem C40_stream_lock_discipline_refuted :
   (exists s, SL.reachable SL.UnregAfterUnlock s /\ SL.panic s = Some SL.PRace)
   /\ (exists s, SL.reachable SL.AddUnderRLock s /\ SL.panic s = Some SL.PRace)
-  /\ (exists s, SL.reachable SL.WriteNoLock s /\ SL.panic s = Some SL.PRace).
-Proof. split; [exact C40_StreamCheck.unreg_race|split; [exact C40_StreamCheck.rlock_race|exact C40_StreamCheck.nolock_race]]. Qed.
+  /\ (exists s, SL.reachable SL.WriteNoLock s /\ SL.panic s = Some SL.PRace)
+  /\ (exists s, SL.reachable SL.CloseNoLock s /\ SL.panic s = Some SL.PRace).
+Proof.
+  split; [exact C40_StreamCheck.unreg_race|split; [exact C40_StreamCheck.rlock_race|split;
+    [exact C40_StreamCheck.nolock_race|exact C40_StreamCheck.close_race]]].
+Qed.
 Print Assumptions C40_stream_lock_discipline_refuted.
 
 (* the enabledness test of the stream-level correspondence check is complete, and the code's model never predicts an
